@@ -36,6 +36,11 @@ pub enum MOp {
     CloseChannel,
     /// stop acting; the run ends when the worker returns
     End,
+    /// do not read from the channel for this much virtual time (a main process that is busy elsewhere): the worker's
+    /// answers pile up in the socket and then in its channel's back buffer. Sending continues.
+    PauseReads(u64),
+    /// SO_RCVBUF of the master's end of the channel (how much the kernel absorbs before the worker sees EAGAIN)
+    SetRcvBuf(i32),
 }
 
 #[derive(Default)]
@@ -72,6 +77,7 @@ pub struct Master {
     pub closed: bool,
     sleeping_until: Option<u64>,
     barrier_until: Option<u64>,
+    reads_paused_until: u64,
 }
 
 pub fn frame(req: &WorkerRequest) -> Vec<u8> {
@@ -98,6 +104,7 @@ impl Master {
             closed: false,
             sleeping_until: None,
             barrier_until: None,
+            reads_paused_until: 0,
         }
     }
     pub fn push(&mut self, op: MOp) {
@@ -175,13 +182,14 @@ impl Actor for Master {
 
     fn step(&mut self, w: &mut World) -> Step {
         if self.closed { return Step::Done; }
-        let mut progressed = self.pump_read(w);
+        let paused = w.now < self.reads_paused_until;
+        let mut progressed = if paused { false } else { self.pump_read(w) };
         // flush pending output, one quantum per step
         if !self.out.is_empty() {
             let q = self.wq.draw(&mut self.rng).min(self.out.len());
             match wr(self.fd, &self.out[..q]) {
                 Io::N(n) => { self.out.drain(..n); return Step::Progress; }
-                Io::WouldBlock => { return if progressed { Step::Progress } else { Step::Blocked }; }
+                Io::WouldBlock => { return if progressed { Step::Progress } else if w.now < self.reads_paused_until { Step::Idle(self.reads_paused_until) } else { Step::Blocked }; }
                 _ => { self.data.eof = true; self.out.clear(); return Step::Progress; }
             }
         }
@@ -190,7 +198,7 @@ impl Actor for Master {
             self.sleeping_until = None;
         }
         if self.ended {
-            return if progressed { Step::Progress } else { Step::Blocked };
+            return if progressed { Step::Progress } else if w.now < self.reads_paused_until { Step::Idle(self.reads_paused_until) } else { Step::Blocked };
         }
         let Some(op) = self.script.pop_front() else {
             self.ended = true;
@@ -207,7 +215,7 @@ impl Actor for Master {
             MOp::Barrier => {
                 if !self.data.all_final() && !self.data.eof {
                     self.script.push_front(MOp::Barrier);
-                    return if progressed { Step::Progress } else { Step::Blocked };
+                    return if progressed { Step::Progress } else if w.now < self.reads_paused_until { Step::Idle(self.reads_paused_until) } else { Step::Blocked };
                 }
                 progressed = true;
             }
@@ -224,7 +232,7 @@ impl Actor for Master {
                 if w.board.get(&key).copied().unwrap_or(0) < v {
                     self.script.push_front(MOp::WaitBoard(key, v));
                     // board changes wake every actor (World::board_add / board_set)
-                    return if progressed { Step::Progress } else { Step::Blocked };
+                    return if progressed { Step::Progress } else if w.now < self.reads_paused_until { Step::Idle(self.reads_paused_until) } else { Step::Blocked };
                 }
                 progressed = true;
             }
@@ -253,8 +261,10 @@ impl Actor for Master {
                 return Step::Done;
             }
             MOp::End => { self.ended = true; progressed = true; }
+            MOp::PauseReads(d) => { self.reads_paused_until = w.now + d; progressed = true; }
+            MOp::SetRcvBuf(n) => { let _ = crate::sys::setsockopt_int(self.fd, libc::SOL_SOCKET, libc::SO_RCVBUF, n); progressed = true; }
         }
-        if progressed { Step::Progress } else { Step::Blocked }
+        if progressed { Step::Progress } else if w.now < self.reads_paused_until { Step::Idle(self.reads_paused_until) } else { Step::Blocked }
     }
 }
 
